@@ -128,6 +128,28 @@ theorem director_bounded (capacity batchdiv : Nat) (dones : List Bool) (ops : Li
   have b := occupancy_bounded _ _ _ _ _ h
   exact ⟨a.1, a.2, b.1, b.2, never_over_release _ _ _ _ _ h⟩
 
+/-- every observation the director model emits (the line diffed against the real scheduler after each operation)
+    respects both capacities and reports counters equal to the owners: the `over-capacity` clause of `Spec.checkRun`
+    can never fire on the model -/
+theorem director_obs_bounded (capacity batchdiv : Nat) (dones : List Bool) (ops : List Op) :
+    ∀ o ∈ (dRun (dInit capacity batchdiv dones) ops).2, o.curI ≤ capacity ∧ o.curB ≤ batchCap capacity batchdiv := by
+  suffices ∀ (ops : List Op) (d : DState), Reach false (init capacity (batchCap capacity batchdiv) dones) d.st →
+      ∀ o ∈ (dRun d ops).2, o.curI ≤ capacity ∧ o.curB ≤ batchCap capacity batchdiv from
+    this ops _ Reach.refl
+  intro ops
+  induction ops with
+  | nil => intro d _ o ho; simp [dRun] at ho
+  | cons op rest ih =>
+    intro d h o ho
+    have h1 := dStep_reach d op h
+    simp only [dRun, List.mem_cons] at ho
+    rcases ho with rfl | ho
+    · have a := held_eq_owners _ _ _ _ _ h1
+      have b := occupancy_bounded _ _ _ _ _ h1
+      dsimp only
+      omega
+    · exact ih _ h1 o ho
+
 /-- a concurrent log accepted by `replay` is a path of the small-step model (so an accepted log certifies bounded
     occupancy of the logged holding intervals) -/
 theorem replay_reach (s0 : State) : ∀ (evs : List Ev) (s s' : State) (i : Nat),
